@@ -89,6 +89,19 @@ class Roles:
         self.pop = {n for n in roots(self.unlink & self.free) if not any('NonNull<common::deque::DeqNode' in l['ty']['s'] for l in prog.bodies[n].locals[1:prog.bodies[n].argc + 1])}
         # the non-freeing unlink of a given node
         self.unlink_node = {n for n in self.unlink if n not in self.free}
+        # a move primitive whose pointer surgery lives in private helpers of the list module: the role is the function the other modules call
+        _root = lambda c: prog.bodies[c].root if prog.bodies[c].kind == 'closure' and prog.bodies[c].root else c
+        self.move_prims = set(self.move)      # the functions that write head / tail themselves
+        for _ in range(3):
+            lifted = False
+            for n in sorted(self.move):
+                cs = {_root(c) for c in prog.callers().get(n, ())} - {n}
+                if cs and all(inlist(c) and c not in (self.push | self.unlink | self.free) and not W(c, DEQUE, 'len') and prog.bodies[c].kind != 'closure' for c in cs):
+                    self.move.discard(n)
+                    self.move |= cs
+                    lifted = True
+            if not lifted:
+                break
         if not self.push or not self.unlink or not self.move or not self.free:
             raise CheckFailure('role derivation failed: deque roles push=%s unlink=%s move=%s free=%s' % (
                 sorted(self.push), sorted(self.unlink), sorted(self.move), sorted(self.free)))
@@ -517,9 +530,24 @@ def _derive(ctx, key):
                     out.append(n)
         return out
     if key == 'sync.do_insert':
-        return sorted({prog.bodies[n].root or n for n in prog.bodies if n.startswith('sync::') and 'dashmap::DashMap::entry' in R.ext_calls.get(n, ())})
+        direct = {prog.bodies[n].root or n for n in prog.bodies if n.startswith('sync::') and 'dashmap::DashMap::entry' in R.ext_calls.get(n, ())}
+        # the slot access may sit behind an accessor of the store (`Inner::entry(key)`): the role is the function that fills the slot and makes the write op
+        makers = {prog.bodies[n].root or n for n in eff.who_has(('construct', 'common::concurrent::WriteOp', 'Upsert'))}
+        c = sorted(n for n in makers if n in direct or reaches_ext(n, 'dashmap::DashMap::entry'))
+        if len(c) == 1:
+            return c
+        return sorted(direct)
     if key == 'sync.get_lookup':
-        return sorted({prog.bodies[n].root or n for n in eff.who_has(('construct', 'common::concurrent::ReadOp', 'Hit'))})
+        makers = {prog.bodies[n].root or n for n in eff.who_has(('construct', 'common::concurrent::ReadOp', 'Hit'))}
+        pub = 'sync::cache::Cache::get'
+        if pub in prog.bodies:
+            # the outermost function below the public wrapper that looks the key up and (itself or through a recording helper) makes the Hit
+            reach = prog.reachable_from([pub])
+            c = [n for n in reach if n in fns and n != pub and reaches_ext(n, 'dashmap::DashMap::get') and (n in makers or (prog.reachable_from([n]) & makers))]
+            c = [n for n in c if not any(n in prog.reachable_from([m2]) and m2 != n for m2 in c)]
+            if len(c) == 1:
+                return c
+        return sorted(makers)
     if key == 'sync.contains_lookup':
         pub = 'sync::cache::Cache::contains_key'
         if pub not in prog.bodies:
